@@ -47,8 +47,8 @@ def parse(out, r):
     if m:
         r.checks = int(m.group(2))
     # failed checks
-    for cm in re.finditer(r'Check \d+: (\S+)\n\s*- Status: FAILURE\n\s*- Description: "(.*?)"\n\s*- Location: (.*?)\n', out):
-        r.failed_checks.append({'name': cm.group(1), 'description': cm.group(2), 'location': cm.group(3)})
+    for cm in re.finditer(r'Check \d+: (\S+)\n\s*- Status: FAILURE\n\s*- Description: "(.*?)"\n\s*- Location: ([^\n]*)\n', out, re.S):
+        r.failed_checks.append({'name': cm.group(1), 'description': ' '.join(cm.group(2).split()), 'location': cm.group(3)})
     if 'VERIFICATION:- SUCCESSFUL' in out:
         r.status = 'verified'
     elif 'VERIFICATION:- FAILED' in out:
